@@ -78,6 +78,8 @@ func (c *Ctx) ruleSitesIMM() {
 	rule := "GUARD-SIG(IMM)"
 	sites := c.sitesOf("immutable")
 	perCode := map[string]int{}
+	forms := map[string]bool{}
+	formPos := map[string]string{}
 	for _, s := range sites {
 		c.inSiteContext(s, func() {
 			si := c.buildSiteInfo(s)
@@ -92,6 +94,12 @@ func (c *Ctx) ruleSitesIMM() {
 				if strings.HasPrefix(k, "StarExpr<") {
 					receiverForm = true
 				}
+			}
+			if receiverForm {
+				forms["receiver "+s.Code] = true
+			} else {
+				forms["field "+s.Code] = true
+				formPos[s.Code] = P.Pos(s.Alloc.Pos())
 			}
 			var detail string
 			// ---- exemption: not inside a declared constructor of the type, in the type's own package
@@ -178,6 +186,9 @@ func (c *Ctx) ruleSitesIMM() {
 			case receiverForm && s.Code == "IMM01":
 				c.dispatch(si, rule, []string{"AssignStmt<node>", "StarExpr<unparen(AssignStmt.Lhs[])>", "Ident<unparen(StarExpr.X)>"})
 				c.require(si, rule, "TOK(=)", si.take("tok", func(l Lit) bool { return l.Pos && tokAtom(l, "go/ast.AssignStmt", token.ASSIGN) }), "IMM01 must be reported for plain assignment (Tok == ASSIGN) only")
+			case receiverForm && s.Code == "IMM02":
+				c.dispatch(si, rule, []string{"AssignStmt<node>", "StarExpr<unparen(AssignStmt.Lhs[])>", "Ident<unparen(StarExpr.X)>"})
+				c.require(si, rule, "TOK(op=)", si.take("tok", func(l Lit) bool { return !l.Pos && tokAtom(l, "go/ast.AssignStmt", token.ASSIGN) }), "IMM02 must be reported for compound assignment (Tok != ASSIGN) only")
 			case receiverForm && s.Code == "IMM03":
 				c.dispatch(si, rule, []string{"IncDecStmt<node>", "StarExpr<unparen(IncDecStmt.X)>", "Ident<unparen(StarExpr.X)>"})
 			case s.Code == "IMM01":
@@ -200,6 +211,19 @@ func (c *Ctx) ruleSitesIMM() {
 	}
 	for _, code := range []string{"IMM01", "IMM02", "IMM03", "IMM04"} {
 		c.floor("report sites with code "+code, perCode[code], 1)
+	}
+	// every statement form of the property has a report site: the three statement kinds that write through
+	// a selector (=, op=, ++/--), the element form, and the same three kinds applied to *receiver
+	for _, f := range []struct{ form, what string }{
+		{"field IMM01", "x.f = v"}, {"field IMM02", "x.f op= v"}, {"field IMM03", "x.f++ / x.f--"}, {"field IMM04", "x.f[i] = v"},
+		{"receiver IMM01", "*r = v"}, {"receiver IMM02", "*r op= v (in-place update of the pointer receiver)"}, {"receiver IMM03", "*r++ / *r--"},
+	} {
+		key := "immutable#" + f.form
+		if forms[f.form] {
+			c.ok(rule+"/FORM-COVERED", key, "", "a report site exists for "+f.what)
+		} else {
+			c.fail(rule+"/FORM-COVERED", key, formPos[f.form[len(f.form)-5:]], "no report site handles "+f.what+": the statement writes the immutable value and is reported by no code")
+		}
 	}
 	c.count("report sites", len(sites))
 }
@@ -456,6 +480,21 @@ func (c *Ctx) ruleSitesCTOR() {
 					return false
 				})
 				c.require(si, rule, "ONE-ARG(+)", one, "len(call.Args) == 1 guard missing before call.Args[0]")
+				// new(*T) (also through type P = *T) allocates a pointer, not a T: the operand type is judged as written
+				stripped := false
+				for _, l := range nm {
+					if x, _, _ := typeAssertOK(l); x != nil {
+						for _, r := range P.ResolveDeep(x) {
+							if call := P.CallTo(r, "go/types.Unalias"); call != nil && P.RootsAny(call.Call.Args[0], func(a ssa.Value) bool { return P.CallTo(a, "(*go/types.Pointer).Elem") != nil }) {
+								stripped = true
+							}
+						}
+					}
+				}
+				if len(nm) > 0 {
+					c.check(!stripped, rule+"/NOT-POINTER(-)", si.Name, P.Pos(s.Alloc.Pos()), "the operand type of new is judged as written (no pointer stripped)",
+						"the operand type of new has a pointer stripped before it is looked up: new(*T) - which allocates a nil *T and no T - is reported as an instantiation of T")
+				}
 			case "CTOR03":
 				c.dispatch(si, rule, []string{"GenDecl<node>", "ValueSpec<GenDecl.Specs[]>"})
 				c.require(si, rule, "TOK(var)", si.take("tok", func(l Lit) bool { return l.Pos && tokAtom(l, "go/ast.GenDecl", token.VAR) }), "CTOR03 must be reported for var declarations (GenDecl.Tok == VAR) only")
@@ -627,6 +666,12 @@ func (c *Ctx) ruleSitesTONL() {
 				return call != nil && !l.Pos && call.Call.StaticCallee() != nil && FuncName(call.Call.StaticCallee()) == "testonly.isTestFile"
 			})
 			c.require(si, rule, "NOT-TEST-FILE(-)", tf, "no guard !strings.HasSuffix(<name of the walked file>, \"_test.go\") on the path to this report: uses in test files would be reported")
+			for _, l := range tf {
+				if call := P.litCallTo(l, "strings.HasSuffix"); call != nil {
+					c.check(c.unadjustedPosition(call.Call.Args[0]), rule+"/NOT-TEST-FILE/OWN-NAME", si.Name, P.Pos(call.Pos()), "the name tested is the file's own (PositionFor(file.Pos(), false).Filename)",
+						"test-file status is decided on FileSet.Position(file.Pos()).Filename, which a //line directive before the package clause replaces: product code can declare itself a _test.go file and use @testonly items unreported")
+				}
+			}
 
 			// ---- ignore gate at detection time, on this very violation
 			detail = "no guard !ignoreSet.Contains(v.Code, v.Pos) between the detection and the report (the reporter of this package is created without an ignore set)"
@@ -690,10 +735,19 @@ func (c *Ctx) ruleSitesTONL() {
 				}
 			case "TONL03":
 				detail = "no positive testOnlyMethods.Match(pkg(T), method, name(T)) on an index built by BuildTestOnlyMethodsIndex"
+				ownerWhy := ""
 				mem := si.take("methods-index", c.indexCallPred(fnMatch, "indexing.BuildTestOnlyMethodsIndex", true, func(call *ssa.Call) (bool, string) {
 					a := call.Call.Args
 					if ok, why := c.typeKeyArgs(a[1], a[3]); !ok {
 						return false, why
+					}
+					// the key names the type that DECLARES the method: the receiver of the method object the
+					// selector resolves to. The static type of the operand is a different type when the method is
+					// promoted through an embedded field.
+					for _, k := range []ssa.Value{a[1], a[3]} {
+						if !c.descHas(k, "(*go/types.Signature).Recv") {
+							ownerWhy = "the method is looked up under the static type of the operand (TypeOf(sel.X)), not under the receiver type of the method object (Selections[sel].Obj() / Uses[sel.Sel] -> Signature.Recv()): a @testonly method called through a type that embeds its receiver type is not reported"
+						}
 					}
 					if !c.rootsAre(a[2], func(r ssa.Value) bool {
 						id := fieldLoad(r, "go/ast.Ident", "Name")
@@ -704,6 +758,9 @@ func (c *Ctx) ruleSitesTONL() {
 					return true, ""
 				}, &detail))
 				c.require(si, rule, "METHODS-INDEX(+)", mem, detail)
+				if len(mem) > 0 {
+					c.check(ownerWhy == "", rule+"/METHOD-OWNER(+)", si.Name, P.Pos(s.Alloc.Pos()), "the method index is queried with the receiver type of the called method object", ownerWhy)
+				}
 				c.dispatch(si, rule, []string{"CallExpr<node>", "SelectorExpr<unparen(CallExpr.Fun)>"})
 			case "TONL01":
 				c.tonl01Dispatch(si, rule)
@@ -1131,6 +1188,7 @@ func (c *Ctx) pkgoDispatch(si *siteInfo, rule string) {
 		aliasResolved := false
 		unresolvedPkgTest := false
 		recvNonNil, recvNilOrCompound := false, false
+		byUse := false
 		for _, l := range path {
 			if x, t, _ := typeAssertOK(l); x != nil && l.Pos {
 				ts := typeStr(t)
@@ -1146,10 +1204,12 @@ func (c *Ctx) pkgoDispatch(si *siteInfo, rule string) {
 							return true
 						}
 						if lk, ok := r.(*ssa.Lookup); ok && P.RootsAllDeep(lk.X, func(m ssa.Value) bool { return fieldLoad(m, "go/types.Info", "Uses") != nil }) {
+							byUse = true
 							return true
 						}
 						if ex, ok := r.(*ssa.Extract); ok {
 							if lk, ok := ex.Tuple.(*ssa.Lookup); ok && P.RootsAllDeep(lk.X, func(m ssa.Value) bool { return fieldLoad(m, "go/types.Info", "Uses") != nil }) {
+								byUse = true
 								return true
 							}
 						}
@@ -1224,6 +1284,10 @@ func (c *Ctx) pkgoDispatch(si *siteInfo, rule string) {
 		}
 		if si.S.Code == "PKGO02" && !recvNilOrCompound {
 			ok = false
+		}
+		if ok && !byUse && si.S.Code == "PKGO01" { // only a type can be written where an identifier also defines something
+			okAll = false
+			c.fail(rule+"/OBJECT-BY-USE", si.Name, where, "the referenced object is taken from TypesInfo.ObjectOf only, which answers with the object an identifier *defines* when there is one: the type of an embedded field (struct{ pkg.T }) defines the field and is not seen as a reference to T; TypesInfo.Uses must be consulted")
 		}
 		if !ok {
 			okAll = false
